@@ -43,3 +43,21 @@ impl<T> guard_models::Receiver<T> {
         ensures final(fx).log == old(fx).log.push(GEffect::Await { chan: old(self).chan() }), final(self).chan() == old(self).chan(),
     { unimplemented!() }
 }
+
+// ---- what `client::new` builds its two halves from (A-mpsc, A-ids, A-sink) ----
+pub mod new_models {
+    use super::*;
+    /// `mpsc::channel(buffer)`: sender and receiver of one fresh queue; nothing taken, not closed, not drained
+    #[verifier::external_body]
+    pub fn mpsc_channel<Req, Resp>(buffer: usize) -> (r: (call_models::ToDispatch<Req, Resp>, PendingRequests<Req, Resp>))
+        ensures r.0.queue() == r.1.queue(), !r.1@.drained, !r.1@.closed_by_rx, r.1@.taken == Set::<u64>::empty(),
+    { unimplemented!() }
+    /// `crate::cancellations::cancellations()`: the two halves of one fresh cancellation queue
+    #[verifier::external_body]
+    pub fn cancellations() -> (r: (guard_models::RequestCancellation, CanceledRequests))
+        ensures r.0.queue() == r.1.queue(), !r.1@.drained,
+    { unimplemented!() }
+    /// `Arc::new(AtomicUsize::new(0))`: a fresh shared id counter
+    #[verifier::external_body]
+    pub fn next_id_new() -> (r: call_models::NextId) { unimplemented!() }
+}
